@@ -1,22 +1,10 @@
 (* compile_body is correct with respect to the reference control semantics, for all bodies
-   without a cut in an opaque position (condition of if-then-else, under \+). *)
+   (a cut inside a condition or under \+ is local to it). *)
 From Coq Require Import List Arith Bool Lia.
 Import ListNotations.
 From YP Require Import Base.Str Lang.Ast Sem.Res Sem.RefSem Sem.SemLemmas Comp.IR Comp.CompileBody Sem.IRSem.
 Set Implicit Arguments.
 
-Fixpoint tcut (b:body) : bool :=
-  match b with
-  | BCut => true
-  | BAnd a b | BOr a b => tcut a || tcut b
-  | BIf c t => tcut t
-  | _ => false end.
-Fixpoint noc (b:body) : bool :=
-  match b with
-  | BAnd a b | BOr a b => noc a && noc b
-  | BIf c t => negb (tcut c) && noc c && noc t
-  | BNot a => negb (tcut a) && noc a
-  | _ => true end.
 Fixpoint wfm (cnt:nat) (b:body) : bool :=
   match b with
   | BMark l => l <=? cnt
@@ -323,49 +311,215 @@ Proof.
       destruct (Nat.eqb l1 l) eqn:El1; [apply Nat.eqb_eq in El1; unfold l in El1; lia|reflexivity].
 Qed.
 
+
+(* ---- the same over arbitrary semantic functions, for the blocks that have no body-level counterpart *)
+Definition okR (cnt:nat) (R:S -> res S) (code:list stmt) : Prop :=
+  noasg code = true /\
+  forall s f, doBreak f = false -> okr cnt (R s) (exec_list code s f) f.
+
+Lemma okR_mono cnt cnt' R code : cnt <= cnt' -> okR cnt' R code -> okR cnt R code.
+Proof. intros Hle [NA H]. split; [exact NA|]. intros s f Hf. destruct (H s f Hf) as [f' [E P]]. exists f'; split; auto. eapply post_mono; eauto. Qed.
+Lemma okR_ext cnt R R' code : (forall s, R s = R' s) -> okR cnt R' code -> okR cnt R code.
+Proof. intros E [NA H]. split; [exact NA|]. intros s f Hf. rewrite E. apply H; exact Hf. Qed.
+
+Lemma okR_app cnt R1 R2 c1 c2 : okR cnt R1 c1 -> okR cnt R2 c2 -> okR cnt (fun s => por (R1 s) (R2 s)) (c1++c2).
+Proof.
+  intros [NA1 H1] [NA2 H2]. split; [rewrite noasg_app, NA1, NA2; reflexivity|].
+  intros s f Hf. rewrite exec_list_app by exact NA1.
+  destruct (H1 s f Hf) as [f1 [E P]]. rewrite E.
+  destruct (R1 s) as [xs fa]; simpl fst in *; simpl snd in *.
+  destruct fa; simpl cof; cbv iota; simpl por.
+  - destruct P as [P1 P2]. destruct (H2 s f1 P1) as [f2 [E2 Q]]. rewrite E2.
+    destruct (R2 s) as [ys g]; simpl fst in *; simpl snd in *.
+    exists f2; split; [reflexivity|]. destruct g; simpl in *; auto.
+    + destruct Q as [Q1 Q2]. split; auto. intros l0 Hl. rewrite Q2 by auto. apply P2; auto.
+    + destruct Q as [Q1 [Q2 Q3]]. repeat split; auto. intros l0 Hl Hn. rewrite Q3 by auto. apply P2; auto.
+  - exists f1; split; [reflexivity|exact Logic.I].
+  - exists f1; split; [reflexivity|exact Logic.I].
+  - exists f1; split; [reflexivity|exact P].
+Qed.
+
+Lemma okR_block cnt R code :
+  okR (Datatypes.S cnt) R code -> okR cnt (fun s => catch (Datatypes.S cnt) (R s)) [SBlock (Datatypes.S cnt) code].
+Proof.
+  intros [NA H]. split; [reflexivity|]. intros s f Hf. set (l := Datatypes.S cnt) in *.
+  rewrite exec_list_single by reflexivity. rewrite exec_stmt_eq.
+  assert (Hf0: doBreak (setlab l false f) = false) by exact Hf.
+  destruct (H s (setlab l false f) Hf0) as [f1 [E P]]. rewrite E.
+  destruct (R s) as [ys g]; simpl fst in *; simpl snd in *.
+  destruct g; simpl cof; simpl catch; unfold end_block.
+  - destruct P as [P1 P2]. assert (L: lab f1 l = false).
+    { rewrite P2 by (unfold l; lia). simpl. rewrite Nat.eqb_refl. reflexivity. }
+    rewrite L, P1. exists f1. split; [reflexivity|]. simpl. split; auto.
+    intros l0 Hl. rewrite P2 by (unfold l; lia). simpl.
+    destruct (Nat.eqb l0 l) eqn:El; [apply Nat.eqb_eq in El; unfold l in El; lia|reflexivity].
+  - exists f1; split; [reflexivity|exact Logic.I].
+  - exists f1; split; [reflexivity|exact Logic.I].
+  - destruct P as [P1 [P2 P3]]. destruct (Nat.eqb l0 l) eqn:El.
+    + apply Nat.eqb_eq in El. subst l0. rewrite P2. simpl. exists (setbrk false f1). split; [reflexivity|].
+      simpl. split; auto. intros l0 Hl. rewrite P3 by (unfold l; lia). simpl.
+      destruct (Nat.eqb l0 l) eqn:El; [apply Nat.eqb_eq in El; unfold l in El; lia|reflexivity].
+    + assert (Hn: l0 <> l) by (apply Nat.eqb_neq; exact El).
+      assert (L: lab f1 l = false).
+      { rewrite P3 by (unfold l; auto; lia). simpl. rewrite Nat.eqb_refl. reflexivity. }
+      rewrite L, P1. exists f1. split; [reflexivity|]. simpl. repeat split; auto.
+      intros l1 Hl Hn1. rewrite P3 by (unfold l; auto; lia). simpl.
+      destruct (Nat.eqb l1 l) eqn:El1; [apply Nat.eqb_eq in El1; unfold l in El1; lia|reflexivity].
+Qed.
+
+(* ---- a cut inside a condition: replaced by the marker of the condition's own block *)
+Definition c2f (m:nat) (g:fin) : fin := match g with FCut => FExit m | _ => g end.
+Definition c2e (m:nat) (r:res S) : res S := (fst r, c2f m (snd r)).
+
+Lemma seqr_c2e m (f:S->res S) xs e : seqr (fun x => c2e m (f x)) xs (c2f m e) = c2e m (seqr f xs e).
+Proof.
+  induction xs as [|x r IH]; [reflexivity|]. cbn [seqr]. unfold c2e at 1. destruct (f x) as [ys g]. cbn [fst snd].
+  destruct g; cbn [c2f]; try reflexivity.
+  rewrite IH. destruct (seqr f r e) as [zs h]. reflexivity.
+Qed.
+
+Lemma por_c2e m (ra rb:res S) : por (c2e m ra) (c2e m rb) = c2e m (por ra rb).
+Proof. destruct ra as [xs g], rb as [ys h]. unfold c2e. cbn [fst snd]. destruct g; reflexivity. Qed.
+
+Lemma ite_c2e m rc (t:S->res S) e : snd rc <> FCut ->
+  ite rc (fun x => c2e m (t x)) (c2e m e) = c2e m (ite rc t e).
+Proof. destruct rc as [[|x r] g]; cbn [ite snd]; intros H; [|reflexivity]. destruct g; try reflexivity. congruence. Qed.
+
+Lemma opaque_not_cut (r:res S) : snd (opaque r) <> FCut.
+Proof. destruct r as [xs g]; destruct g; simpl; discriminate. Qed.
+
+Lemma isif_loc m b : isif (loc m b) = isif b.
+Proof. destruct b; reflexivity. Qed.
+
+Lemma sem_loc m b : forall s, sem (loc m b) s = c2e m (sem b s).
+Proof.
+  induction b as [f a| | | |l|a b IHa IHb|a b Hif IHa IHb|c t e IHc IHt IHe|c t IHc IHt|a IHa] using body_ind'; intros s.
+  - cbn [loc RefSem.sem]. destruct (I f a s) as [xs e]. destruct e; reflexivity.
+  - reflexivity.
+  - reflexivity.
+  - reflexivity.
+  - reflexivity.
+  - cbn [loc RefSem.sem]. rewrite IHa. destruct (RefSem.sem I a s) as [xs e]. cbn [c2e fst snd].
+    rewrite (seqr_ext _ (fun x => c2e m (RefSem.sem I b x)) _ _ IHb). apply seqr_c2e.
+  - cbn [loc]. rewrite (@sem_or_plain _ I (loc m a) (loc m b) s) by (rewrite isif_loc; exact Hif).
+    rewrite (@sem_or_plain _ I a b s Hif), IHa, IHb. apply por_c2e.
+  - cbn [loc]. rewrite !sem_or_if. rewrite IHe.
+    rewrite (ite_ext _ _ (fun x => c2e m (RefSem.sem I t x)) _ IHt). apply ite_c2e. apply opaque_not_cut.
+  - cbn [loc RefSem.sem]. rewrite (ite_ext _ _ (fun x => c2e m (RefSem.sem I t x)) _ IHt).
+    change (@nil S, FNorm) with (c2e m (@nil S, FNorm)). apply ite_c2e. apply opaque_not_cut.
+  - cbn [loc RefSem.sem].
+    change (fun _ : S => (@nil S, FNorm)) with (fun x : S => c2e m ((fun _ : S => (@nil S, FNorm)) x)).
+    change ([s], FNorm) with (c2e m ([s], FNorm)). apply ite_c2e. apply opaque_not_cut.
+Qed.
+
+Lemma wfm_loc cnt m b k : wfm cnt b = true -> cnt <= k -> m <= k -> wfm k (loc m b) = true.
+Proof.
+  intros W L1 L2. induction b as [f a| | | |l|a IHa b IHb|a IHa b IHb|c IHc t IHt|a IHa]; cbn [loc wfm] in *.
+  - reflexivity.
+  - reflexivity.
+  - reflexivity.
+  - apply Nat.leb_le; exact L2.
+  - apply Nat.leb_le in W. apply Nat.leb_le. lia.
+  - apply andb_true_iff in W as [Wa Wb]. apply andb_true_iff; split; auto.
+  - apply andb_true_iff in W as [Wa Wb]. apply andb_true_iff; split; auto.
+  - apply andb_true_iff in W as [Wa Wb]. apply andb_true_iff; split; [exact (@wfm_mono cnt k c L1 Wa)|auto].
+  - exact (@wfm_mono cnt k a L1 W).
+Qed.
+
+(* the two-block scheme for a condition with a cut of its own *)
+Lemma sem_block2 c t e l m s :
+  l <> m ->
+  snd (sem c s) <> FExit l -> snd (sem c s) <> FExit m ->
+  (forall x, snd (sem t x) <> FExit l) -> (forall x, snd (sem t x) <> FExit m) ->
+  snd (sem e s) <> FExit l ->
+  catch l (por (catch m (sem (BAnd (loc m c) (BAnd (BMark l) t)) s)) (sem e s)) = sem (BOr (BIf c t) e) s.
+Proof.
+  intros Hlm Xcl Xcm Xtl Xtm Xel.
+  rewrite sem_or_if, sem_and, sem_loc. unfold bindr.
+  destruct (RefSem.sem I c s) as [xs fc] eqn:Ec. cbn [c2e fst snd] in *.
+  destruct xs as [|x r].
+  - cbn [seqr]. destruct fc; cbn [c2f catch opaque ite por].
+    + destruct (RefSem.sem I e s) as [ys g]; cbn [snd] in *. destruct g; try reflexivity.
+      cbn [catch]. destruct (Nat.eqb l0 l) eqn:El; [apply Nat.eqb_eq in El; congruence|reflexivity].
+    + rewrite Nat.eqb_refl. cbn [por].
+      destruct (RefSem.sem I e s) as [ys g]; cbn [snd] in *. destruct g; try reflexivity.
+      cbn [catch]. destruct (Nat.eqb l0 l) eqn:El; [apply Nat.eqb_eq in El; congruence|reflexivity].
+    + reflexivity.
+    + destruct (Nat.eqb l0 m) eqn:Em; [apply Nat.eqb_eq in Em; congruence|]. cbn [por catch].
+      destruct (Nat.eqb l0 l) eqn:El; [apply Nat.eqb_eq in El; congruence|reflexivity].
+  - assert (E: seqr (RefSem.sem I (BAnd (BMark l) t)) (x::r) (c2f m fc) =
+               let '(ys,g) := RefSem.sem I t x in (ys, match g with FNorm => FExit l | _ => g end)).
+    { simpl. destruct (RefSem.sem I t x) as [ys g]; destruct g; try reflexivity. rewrite app_nil_r. reflexivity. }
+    rewrite E. specialize (Xtl x). specialize (Xtm x).
+    replace (ite (opaque (x :: r, fc)) (RefSem.sem I t) (RefSem.sem I e s)) with (RefSem.sem I t x) by (destruct fc; reflexivity).
+    destruct (RefSem.sem I t x) as [ys g]; cbn [snd] in *. destruct g; cbn [catch por].
+    + destruct (Nat.eqb l m) eqn:Em; [apply Nat.eqb_eq in Em; congruence|]. cbn [por catch]. rewrite Nat.eqb_refl. reflexivity.
+    + reflexivity.
+    + reflexivity.
+    + destruct (Nat.eqb l0 m) eqn:Em; [apply Nat.eqb_eq in Em; congruence|]. cbn [por catch].
+      destruct (Nat.eqb l0 l) eqn:El; [apply Nat.eqb_eq in El; congruence|reflexivity].
+Qed.
+
+Lemma ok_block2 cnt c t e c1 c2 k1 :
+  wfm cnt c = true -> wfm cnt t = true -> wfm cnt e = true ->
+  Datatypes.S (Datatypes.S cnt) <= k1 ->
+  ok (Datatypes.S (Datatypes.S cnt)) (BAnd (loc (Datatypes.S (Datatypes.S cnt)) c) (BAnd (BMark (Datatypes.S cnt)) t)) c1 ->
+  ok k1 e c2 ->
+  ok cnt (BOr (BIf c t) e) [SBlock (Datatypes.S cnt) ([SBlock (Datatypes.S (Datatypes.S cnt)) c1] ++ c2)].
+Proof.
+  intros Wc Wt We Lk O1 O2. set (l := Datatypes.S cnt) in *. set (m := Datatypes.S l) in *.
+  assert (Fr: forall b, wfm cnt b = true -> forall s0 l0, cnt < l0 -> snd (RefSem.sem I b s0) <> FExit l0).
+  { intros b W s0 l0 Hl E. apply (@wfm_sem cnt b W) in E. lia. }
+  apply okR_ext with (R' := fun s => catch l (por (catch m (RefSem.sem I (BAnd (loc m c) (BAnd (BMark l) t)) s)) (RefSem.sem I e s))).
+  { intros s. symmetry. apply sem_block2; try (apply Fr; auto; unfold m, l; lia); try (intros x; apply Fr; auto; unfold m, l; lia). unfold m; lia. }
+  apply okR_block. apply okR_app.
+  - apply okR_block. exact O1.
+  - apply okR_mono with (cnt' := k1); [unfold l; lia|exact O2].
+Qed.
+
 Lemma ok_leaf cnt b code : ok cnt (BAnd b BTrue) code -> ok cnt b code.
 Proof. apply ok_ext. intros s. symmetry. apply sem_and_true. Qed.
 
-Ltac bools := cbn [wfm noc tcut andb negb orb] in *; repeat match goal with
+Ltac bools := cbn [wfm tcut andb negb orb] in *; repeat match goal with
   | H: _ && _ = true |- _ => apply andb_true_iff in H; destruct H
   | |- _ && _ = true => apply andb_true_iff; split
   | H: negb _ = true |- _ => apply negb_true_iff in H
   | |- negb _ = true => apply negb_true_iff
-  end; cbn [wfm noc tcut andb negb orb] in *; auto.
+  end; cbn [wfm tcut andb negb orb] in *; auto.
 
 Theorem comp_ok : forall n b cnt code cnt',
-  comp n b cnt = Some (code,cnt') -> wfm cnt b = true -> noc b = true ->
+  comp n b cnt = Some (code,cnt') -> wfm cnt b = true ->
   cnt <= cnt' /\ ok cnt b code.
 Proof.
-  induction n as [|n IH]; intros b cnt code cnt' H W N; [discriminate|].
+  induction n as [|n IH]; intros b cnt code cnt' H W; [discriminate|].
   (* every rewrite case: apply IH to the rewritten body and transport along a semantic equality *)
-  assert (RW: forall b', comp n b' cnt = Some (code,cnt') -> wfm cnt b' = true -> noc b' = true ->
+  assert (RW: forall b', comp n b' cnt = Some (code,cnt') -> wfm cnt b' = true ->
               (forall s, sem b s = sem b' s) -> cnt <= cnt' /\ ok cnt b code).
-  { intros b' H' W' N' E. destruct (IH _ _ _ _ H' W' N') as [L O]. split; [exact L|]. eapply ok_ext; eauto. }
+  { intros b' H' W' E. destruct (IH _ _ _ _ H' W') as [L O]. split; [exact L|]. eapply ok_ext; eauto. }
   destruct b as [g ga| | | |l|a K|x y|c t|x]; cbn [comp] in H.
-  - (* BCall *) apply (RW _ H); [bools|bools|intros s; symmetry; apply sem_and_true].
+  - (* BCall *) apply (RW _ H); [bools|intros s; symmetry; apply sem_and_true].
   - inversion H; subst. split; [lia|]. split; [reflexivity|]. intros s f Hf. exists f. simpl. split; auto.
-  - apply (RW _ H); [bools|bools|intros s; symmetry; apply sem_and_true].
+  - apply (RW _ H); [bools|intros s; symmetry; apply sem_and_true].
   - inversion H; subst. split; [lia|]. split; [reflexivity|]. intros s f Hf. exists f. simpl. split; auto.
-  - apply (RW _ H); [bools|bools|intros s; symmetry; apply sem_and_true].
+  - apply (RW _ H); [bools|intros s; symmetry; apply sem_and_true].
   - (* BAnd a K *)
-    cbn [wfm noc tcut] in W, N. bools.
+    cbn [wfm tcut] in W. bools.
     destruct a as [g ga| | | |l|x y|x y|c t|x].
     + destruct (comp n K cnt) as [[c k]|] eqn:E; [|discriminate]. inversion H; subst.
       destruct (IH _ _ _ _ E) as [L O]; auto. split; [exact L|]. apply ok_foreach; exact O.
-    + apply (RW _ H); [bools|bools|intros s; apply sem_true_and].
+    + apply (RW _ H); [bools|intros s; apply sem_true_and].
     + inversion H; subst. split; [lia|]. split; [reflexivity|]. intros s f Hf. exists f. simpl. split; auto.
     + destruct (comp n K cnt) as [[c k]|] eqn:E; [|discriminate]. inversion H; subst.
       destruct (IH _ _ _ _ E) as [L O]; auto. split; [exact L|]. apply ok_snoc_return; exact O.
     + destruct (comp n K cnt) as [[c k]|] eqn:E; [|discriminate]. inversion H; subst.
       destruct (IH _ _ _ _ E) as [L O]; auto. split; [exact L|]. apply ok_snoc_break; exact O.
-    + apply (RW _ H); [bools|bools|intros s; apply sem_and_assoc].
-    + destruct x; try (apply (RW _ H); [bools|bools|intros s; apply sem_or_distr; reflexivity]).
-      apply (RW _ H); [bools|bools|intros s; apply sem_ite_distr].
-    + apply (RW _ H); [bools|bools|intros s; apply sem_if_and].
-    + apply (RW _ H); [bools|bools|intros s; apply sem_not_and].
+    + apply (RW _ H); [bools|intros s; apply sem_and_assoc].
+    + destruct x; try (apply (RW _ H); [bools|intros s; apply sem_or_distr; reflexivity]).
+      apply (RW _ H); [bools|intros s; apply sem_ite_distr].
+    + apply (RW _ H); [bools|intros s; apply sem_if_and].
+    + apply (RW _ H); [bools|intros s; apply sem_not_and].
   - (* BOr x y *)
-    cbn [wfm noc tcut] in W, N. bools.
+    cbn [wfm tcut] in W. bools.
     assert (Plain: isif x = false ->
       match comp n x cnt with
       | Some (c1,k1) => match comp n y k1 with Some (c2,k2) => Some (c1++c2,k2) | None => None end
@@ -377,14 +531,23 @@ Proof.
       split; [lia|]. apply ok_app_or; auto. eapply ok_mono; eauto. }
     destruct x as [g ga| | | |l|x1 x2|x1 x2|c t|x1]; try (apply Plain; [reflexivity|exact H]).
     (* if-then-else *)
-    destruct (comp n (BOr (BAnd c (BAnd (BMark (Datatypes.S cnt)) t)) y) (Datatypes.S cnt)) as [[code' k]|] eqn:E; [|discriminate].
-    inversion H; subst. cbn [wfm noc tcut] in *. bools.
-    destruct (IH _ _ _ _ E) as [L O].
-    { simpl. rewrite Nat.leb_refl. bools; eapply wfm_mono; try eassumption; lia. }
-    { simpl. bools. }
-    split; [lia|]. apply ok_block; auto.
-  - (* BIf *) apply (RW _ H); [bools|bools|intros s; symmetry; apply sem_and_true].
-  - (* BNot *) apply (RW _ H); [bools|bools|intros s; symmetry; apply sem_and_true].
+    cbn [wfm tcut] in *. bools.
+    destruct (tcut c) eqn:Tc.
+    + (* the condition has a cut of its own: two blocks *)
+      destruct (comp n (BAnd (loc (Datatypes.S (Datatypes.S cnt)) c) (BAnd (BMark (Datatypes.S cnt)) t)) (Datatypes.S (Datatypes.S cnt)))
+        as [[c1 k1]|] eqn:E1; [|discriminate].
+      destruct (comp n y k1) as [[c2 k2]|] eqn:E2; [|discriminate]. inversion H; subst.
+      destruct (IH _ _ _ _ E1) as [L1 O1].
+      { cbn [wfm]. bools; [apply (@wfm_loc cnt); auto; lia|apply Nat.leb_le; lia|apply (@wfm_mono cnt); [lia|assumption]]. }
+      destruct (IH _ _ _ _ E2) as [L2 O2]. { apply (@wfm_mono cnt k1 y); [lia|assumption]. }
+      split; [lia|]. apply (@ok_block2 cnt c t y c1 c2 k1); auto.
+    + destruct (comp n (BOr (BAnd c (BAnd (BMark (Datatypes.S cnt)) t)) y) (Datatypes.S cnt)) as [[code' k]|] eqn:E; [|discriminate].
+      inversion H; subst.
+      destruct (IH _ _ _ _ E) as [L O].
+      { simpl. rewrite Nat.leb_refl. bools; eapply wfm_mono; try eassumption; lia. }
+      split; [lia|]. apply ok_block; auto.
+  - (* BIf *) apply (RW _ H); [bools|intros s; symmetry; apply sem_and_true].
+  - (* BNot *) apply (RW _ H); [bools|intros s; symmetry; apply sem_and_true].
 Qed.
 
 Definition fin_of_compl (k:compl) : fin :=
@@ -426,19 +589,19 @@ Proof.
     + exact PN.
 Qed.
 
-(* C05/C06 core: for every body without $CUTIF markers and without a cut in an opaque position,
+(* C05/C06 core: for every body without $CUTIF markers (i.e. every body that can come from source text),
    for every interpretation of the leaves, whatever the label counter is when the body is compiled,
    the emitted code yields exactly the answers of the reference semantics, in order, and ends
    the same way (return <-> cut, exception <-> error), with doBreak false again at the end. *)
 Theorem control_correct : forall n b cnt code cnt',
-  comp n b cnt = Some (code,cnt') -> nomark b = true -> noc b = true ->
+  comp n b cnt = Some (code,cnt') -> nomark b = true ->
   noasg code = true /\
   forall s f, doBreak f = false ->
     exists f', exec_list code s f = (fst (sem b s), cof (snd (sem b s)), f') /\
                (snd (sem b s) = FNorm -> doBreak f' = false) /\
                (forall l, snd (sem b s) <> FExit l).
 Proof.
-  intros n b cnt code cnt' H M N. destruct (comp_ok _ _ _ H (nomark_wfm _ cnt M) N) as [_ [NA O]].
+  intros n b cnt code cnt' H M. destruct (comp_ok _ _ _ H (nomark_wfm _ cnt M)) as [_ [NA O]].
   split; [exact NA|]. intros s f Hf.
   destruct (O s f Hf) as [f' [E P]]. exists f'. split; [exact E|].
   pose proof (@nomark_sem b M s) as X. split; [|exact X].
@@ -447,10 +610,10 @@ Qed.
 
 (* a function whose body is the code of one clause body *)
 Corollary control_correct_function : forall n b cnt code cnt',
-  comp n b cnt = Some (code,cnt') -> nomark b = true -> noc b = true ->
+  comp n b cnt = Some (code,cnt') -> nomark b = true ->
   forall s, (let '(ys,k) := run_function J assign code s in (ys, fin_of_compl k)) = sem b s.
 Proof.
-  intros n b cnt code cnt' H M N s. destruct (control_correct _ _ _ H M N) as [_ O].
+  intros n b cnt code cnt' H M s. destruct (control_correct _ _ _ H M) as [_ O].
   unfold run_function. destruct (O s flags0 eq_refl) as [f' [E [_ X]]]. rewrite E.
   destruct (RefSem.sem I b s) as [ys g]; simpl in *. destruct g; try reflexivity.
   exfalso. exact (X l eq_refl).
